@@ -25,6 +25,11 @@ def main():
         sig = next((ch[t]["first_signature"] for t in ("quick", "thorough") if ch.get(t, {}).get("detected")), "")
         rows.append("| %s | %s | %s | %s | `%s` |" % (n, cell(m.get("summary", ""), 150), cell(m.get("needs", ""), 160), tier, cell(sig, 60)))
     caught_quick = sum(1 for r in rows if "| quick |" in r)
+    import collections
+
+    commits = {n: json.load(open(os.path.join(D, n, "meta.json"))).get("applies_to_repo_commit") for n in names}
+    newest = collections.Counter(c for c in commits.values() if c).most_common(1)[0][0]
+    old_list = ", ".join(n for n in names if commits[n] and commits[n] != newest) or "none"
     head = """# Seeded changes
 
 Changes to pdfminer.six written by independent sub-agents that were given only the text of a property and a scratch worktree
@@ -34,17 +39,17 @@ manifest, how it was confirmed, and what the checks said). Every change was conf
 scratch copy of /repo/pdfminer, the pinned suite still passes there (216 passed), the demonstration fails there and passes on /repo,
 then the property's check runs with VERIF_REPO=<copy>. None of them is ever applied to /repo.
 
-Each meta.json names a /repo commit the patch applies to with `git apply` (`applies_to_repo_commit`); later repairs in
-/repo touched some of the patched lines (the rewrite of read_xref_from, the image-export checks), so a few patches no
-longer apply to the current head (C02-j, C02-p, C02-q, C13-c, C13-h, C18-c; C02-g, C03-f and C18-b still apply with
-`patch -p1`), and C15-d is no longer a defect there: the repair cdc58ca (image size and depth are checked before export)
-closes the path it used. Their recorded verdicts are from the commit they were written for.
+Each meta.json names a /repo commit the patch applies to with `git apply` (`applies_to_repo_commit`). Later repairs in
+/repo rewrote some of the patched code (read_xref_from and the page-tree walk became loops, the image export gained
+checks), so these patches apply to their own commit but no longer to the newest one scanned: %s.
+C15-d is no longer a defect at the head: the repair cdc58ca (image size and depth are checked before export) closes the
+path it used. Recorded verdicts are from the commit a change was written for.
 
 %d changes; %d are caught by the quick tier of their property's check (%d of them only after the check was strengthened, see below).
 
 | change | what it does | needs | caught by | first signature |
 |---|---|---|---|---|
-""" % (len(rows), caught_quick, strengthened)
+""" % (old_list, len(rows), caught_quick, strengthened)
     open(os.path.join(D, "README.md"), "w").write(head + "\n".join(rows) + "\n\n" + tail)
     print(len(rows), "rows;", caught_quick, "quick;", strengthened, "strengthened")
 
